@@ -284,7 +284,15 @@ func (os *OutputStream) GetNext(ctx context.Context, lastseen robust.Id) []Messa
 	// Wait until a new message appears.
 	os.messagesMu.Lock()
 	for {
-		current, _ = os.getUnlocked(uint64(current.Messages[0].Id.Id))
+		waitingBehind := current.Messages[0].Id
+		current, ok = os.getUnlocked(uint64(waitingBehind.Id))
+		if !ok {
+			// The message we are waiting behind was deleted in the meantime
+			// (compaction). Start over: GetNext copes with a deleted
+			// lastseen by searching for the next more recent message.
+			os.messagesMu.Unlock()
+			return os.GetNext(ctx, waitingBehind)
+		}
 		next, ok := os.getUnlocked(current.NextID)
 		if ok {
 			os.messagesMu.Unlock()
